@@ -83,7 +83,11 @@ class C13(Scenario):
 
         def maybe_fault(op):
             if arm in ("interrupts", "long") and rng.random() < (0.3 if arm == "interrupts" else 0.1):
-                return ["fault", rng.choice(["interrupt", "interrupt", "memerr"]), int(10 ** rng.uniform(0, 3.7)), op]
+                par = int(10 ** rng.uniform(0, 3.7))
+                if rng.random() < 0.4:
+                    # the n-th line event inside one of the modules that keep state on the objects
+                    par = {"n": int(10 ** rng.uniform(0, 2.2)), "files": [rng.choice(["exprequals.py", "core/compute_expr_hash.py", "form.py", "integral.py", "core/expr.py", "core/ufl_type.py", "algorithms/signature.py", "utils/counted.py"])]}
+                return ["fault", rng.choice(["interrupt", "interrupt", "memerr"]), par, op]
             return op
 
         # the baseline snapshot hashes every pool object; in half of the runs the first
